@@ -1,7 +1,7 @@
 // val.go — the argument/statement tree shared by the C01 and C19 harnesses: one Go type V that
 // mirrors the Gallina type C01_Model.val.  From a V the harness builds (a) the real Go value
 // handed to gorm, (b) the Gallina term, (c) a twin with every scalar replaced.
-package main
+package cgen
 
 import (
 	"context"
@@ -76,7 +76,7 @@ type V struct {
 }
 
 // ---- Gallina ----
-func coqList(l []V) string { return lib.ListOf(l, func(v V) string { return v.Coq() }) }
+func CoqList(l []V) string { return lib.ListOf(l, func(v V) string { return v.Coq() }) }
 func strList(l []string) string { return lib.ListOf(l, lib.Str) }
 
 func (v V) Coq() string {
@@ -84,11 +84,11 @@ func (v V) Coq() string {
 	case "VS", "VDrv":
 		return lib.App(v.T, v.Sc.Coq())
 	case "VList":
-		return lib.App("VList", v.S, coqList(v.L)) // S = LIface | LKnown | LOther
+		return lib.App("VList", v.S, CoqList(v.L)) // S = LIface | LKnown | LOther
 	case "VNamed":
 		return lib.App("VNamed", lib.Str(v.S), v.X.Coq())
 	case "VNameSrc", "VAnd", "VOr", "VNot", "VWhere", "KClauses", "VMapCond", "VStructCond":
-		return lib.App(v.T, coqList(v.L))
+		return lib.App(v.T, CoqList(v.L))
 	case "VGormValuer":
 		return lib.App("VGormValuer", lib.Bool(v.B), v.X.Coq())
 	case "VCol":
@@ -98,23 +98,23 @@ func (v V) Coq() string {
 	case "VQStr", "VText", "KGroup", "KOrder":
 		return lib.App(v.T, lib.Str(v.S))
 	case "VExpr":
-		return lib.App("VExpr", lib.Bool(v.B), lib.Str(v.S), coqList(v.L))
+		return lib.App("VExpr", lib.Bool(v.B), lib.Str(v.S), CoqList(v.L))
 	case "VNamedExpr", "VRawSub", "KSelect", "KJoins":
-		return lib.App(v.T, lib.Str(v.S), coqList(v.L))
+		return lib.App(v.T, lib.Str(v.S), CoqList(v.L))
 	case "VCmp":
 		return lib.App("VCmp", v.S, v.X.Coq(), v.X2.Coq()) // S = OEq ...
 	case "VIn":
-		return lib.App("VIn", v.X.Coq(), coqList(v.L))
+		return lib.App("VIn", v.X.Coq(), CoqList(v.L))
 	case "VSub":
-		return lib.App("VSub", v.TI.Coq(), coqList(v.L))
+		return lib.App("VSub", v.TI.Coq(), CoqList(v.L))
 	case "KCond":
-		return lib.App("KCond", v.S, v.X.Coq(), coqList(v.L)) // S = KWh | KNot | KOr
+		return lib.App("KCond", v.S, v.X.Coq(), CoqList(v.L)) // S = KWh | KNot | KOr
 	case "KHaving":
-		return lib.App("KHaving", v.X.Coq(), coqList(v.L))
+		return lib.App("KHaving", v.X.Coq(), CoqList(v.L))
 	case "KSelectCols":
 		return lib.App("KSelectCols", strList(v.SL))
 	case "KTable":
-		return lib.App("KTable", lib.Str(v.S), lib.Str(v.S2), coqList(v.L))
+		return lib.App("KTable", lib.Str(v.S), lib.Str(v.S2), CoqList(v.L))
 	case "KOrderExpr":
 		return lib.App("KOrderExpr", v.X.Coq())
 	case "KLimit", "KOffset":
@@ -124,9 +124,9 @@ func (v V) Coq() string {
 	case "VField":
 		return lib.App("VField", lib.Str(v.S), lib.Bool(v.B), v.X.Coq())
 	case "VSeq":
-		return lib.App("VSeq", lib.Str(v.S), coqList(v.L))
+		return lib.App("VSeq", lib.Str(v.S), CoqList(v.L))
 	case "VOnConflict":
-		return lib.App("VOnConflict", coqList(v.L), lib.Bool(v.B), coqList(v.L2), coqList(v.L3))
+		return lib.App("VOnConflict", CoqList(v.L), lib.Bool(v.B), CoqList(v.L2), CoqList(v.L3))
 	}
 	panic("Coq: unknown node " + v.T)
 }
@@ -209,7 +209,7 @@ type Item struct {
 	Nick   sql.NullString
 }
 
-var itemTI = TInfo{Table: "items", PK: "id", Model: true, Fields: [][2]string{
+var ItemTI = TInfo{Table: "items", PK: "id", Model: true, Fields: [][2]string{
 	{"ID", "id"}, {"Name", "name"}, {"Code", "code"}, {"Age", "age"}, {"Active", "active"},
 	{"Data", "data"}, {"Note", "note"}, {"Nick", "nick"}}}
 var itemsTableTI = TInfo{Table: "items", PK: "", Model: false}
@@ -255,7 +255,17 @@ type NameArgs struct {
 	Code string
 }
 
-type gctx struct{ db *gorm.DB }
+type Gctx struct{ db *gorm.DB }
+
+func NewGctx(db *gorm.DB) Gctx { return Gctx{db: db} }
+
+// Run applies the chain of in to a fresh handle and calls the finisher.
+func (g Gctx) Run(in Input) *gorm.DB {
+	if in.Fin.K == "raw" || in.Fin.K == "exec" {
+		return g.Finish(g.db, in.Fin)
+	}
+	return g.Finish(g.chain(g.handle(in.TI), in.Chain), in.Fin)
+}
 
 func goScalar(s Sc, variant string) interface{} {
 	switch s.K {
@@ -328,7 +338,7 @@ func goDrv(s Sc, variant string) interface{} {
 	panic("goDrv " + variant)
 }
 
-func (g gctx) list(l []V) []interface{} {
+func (g Gctx) list(l []V) []interface{} {
 	out := make([]interface{}, len(l))
 	for i, x := range l {
 		out[i] = g.val(x)
@@ -336,7 +346,7 @@ func (g gctx) list(l []V) []interface{} {
 	return out
 }
 
-func (g gctx) goList(v V) interface{} {
+func (g Gctx) goList(v V) interface{} {
 	switch v.Go {
 	case "[]interface{}":
 		return g.list(v.L)
@@ -410,14 +420,14 @@ func (g gctx) goList(v V) interface{} {
 func colOf(v V) clause.Column { return clause.Column{Table: v.S, Name: v.S2, Alias: v.S3, Raw: v.B} }
 
 // column position of Eq / IN: a Go string or a clause.Column
-func (g gctx) col(v V) interface{} {
+func (g Gctx) col(v V) interface{} {
 	if v.T == "VQStr" {
 		return v.S
 	}
 	return g.val(v)
 }
 
-func (g gctx) exprs(l []V) []clause.Expression {
+func (g Gctx) exprs(l []V) []clause.Expression {
 	out := make([]clause.Expression, len(l))
 	for i, x := range l {
 		out[i] = g.val(x).(clause.Expression)
@@ -425,7 +435,7 @@ func (g gctx) exprs(l []V) []clause.Expression {
 	return out
 }
 
-func namedEntries(l []V, g gctx) map[string]interface{} {
+func namedEntries(l []V, g Gctx) map[string]interface{} {
 	m := map[string]interface{}{}
 	for _, e := range l {
 		m[e.S] = g.val(*e.X)
@@ -434,7 +444,7 @@ func namedEntries(l []V, g gctx) map[string]interface{} {
 }
 
 // val builds the Go value gorm receives for v.
-func (g gctx) val(v V) interface{} {
+func (g Gctx) val(v V) interface{} {
 	switch v.T {
 	case "VS":
 		return goScalar(*v.Sc, v.Go)
@@ -533,7 +543,7 @@ func (g gctx) val(v V) interface{} {
 }
 
 // item builds an Item from VField nodes (column name, zero flag, value).
-func (g gctx) item(fields []V) Item {
+func (g Gctx) item(fields []V) Item {
 	var it Item
 	for _, f := range fields {
 		if f.B {
@@ -562,7 +572,7 @@ func (g gctx) item(fields []V) Item {
 	return it
 }
 
-func (g gctx) handle(ti TInfo) *gorm.DB {
+func (g Gctx) handle(ti TInfo) *gorm.DB {
 	if ti.Model {
 		return g.db.Model(&Item{})
 	}
@@ -570,7 +580,7 @@ func (g gctx) handle(ti TInfo) *gorm.DB {
 }
 
 // chain applies the K* calls.
-func (g gctx) chain(tx *gorm.DB, calls []V) *gorm.DB {
+func (g Gctx) chain(tx *gorm.DB, calls []V) *gorm.DB {
 	for _, c := range calls {
 		switch c.T {
 		case "KCond":
